@@ -505,3 +505,11 @@ META = {
     "technique": "Coq proof (invariants by induction over op sequences) + in-Coq differential correspondence + reference-queue oracle",
     "design_ref": "5/C05",
 }
+
+# scheduler-level stream: the pool automaton (Model/Pool.v) accepts every real run; see Props/C05.v (pool theorems)
+from vp.sched.stream import SchedStream  # noqa: E402
+STREAMS.append(SchedStream('C05', name="sched-queues", feat={'queues': True, 'hold': True, 'retries': True}, n_quick=28, n_thorough=500))
+META["level_text"] += (" Scheduler level: every real run of generated workflows with queue limits, holds and retries must be "
+                       "accepted by the pool automaton (Model/Pool.v), whose accepted releases are proved to respect every "
+                       "queue limit counting active and released-awaiting-preparation members, never to release a held task, "
+                       "with manual triggering the only exemption (c05_pool_* theorems).")
